@@ -463,3 +463,45 @@ def r11_flagged_equality(ctx):
 
 
 RULES += [r11_flagged_equality]
+
+
+def r12_merge_operand_order(ctx):
+    ctx.rule("C19.r12", "patricia merge(s, t, op, ..): every recursive call keeps the operand order - its first argument is (a branch of) s "
+             "and its second (a branch of) t - because op need not be commutative: the same merge computes widening and narrowing, and "
+             "a swapped pair computes `new widen old` (= new, a plain join) in that subtree, so a chain that grows there never "
+             "stabilises", floor=6)
+    fs = ctx.db.fns(PT, pk=TREE + "::merge")
+    if not ctx.need(fs, "tree::merge"):
+        return
+    seen = set()
+    for fn in fs:
+        if fn["line"] in seen or len(fn.get("params", [])) < 3:
+            continue
+        seen.add(fn["line"])
+        body = fn["body"]
+
+        def root(e):
+            """the parameter (0 = s, 1 = t) an argument expression is taken from, else None"""
+            hits = set()
+            for x in walk(e):
+                if isinstance(x, dict) and x.get("k") == "ref":
+                    for i in (0, 1):
+                        if is_param(x, fn, i):
+                            hits.add(i)
+            return hits.pop() if len(hits) == 1 else None
+        for c in walk(body):
+            if not (is_call(c, name="merge") and len(c.get("a", [])) >= 3):
+                continue
+            a0, a1 = root(c["a"][0]), root(c["a"][1])
+            if a0 == 0 and a1 == 1:
+                ctx.ok("merge(%s, %s, ..)" % (src(c["a"][0])[:24], src(c["a"][1])[:24]), fn, c)
+            elif a0 is None or a1 is None:
+                ctx.undecided("tree::merge: cannot tell which operand `%s` / `%s` come from" % (src(c["a"][0])[:24], src(c["a"][1])[:24]), fn, c)
+            else:
+                ctx.bad("tree::merge recurses with its operands swapped (`merge(%s, %s, ..)`): for a non-commutative op (widening) that "
+                        "subtree computes new widen old = new, so with left indexes {2,3} and right {1,2,3} a bound that grows there is "
+                        "never extrapolated and the analysis of the loop does not terminate" % (src(c["a"][0])[:24], src(c["a"][1])[:24]),
+                        fn, c, sig="merge-operands-swapped")
+
+
+RULES += [r12_merge_operand_order]
